@@ -152,11 +152,27 @@ fn choice_block_has_invisible_default(choices: &[Node]) -> bool {
     })
 }
 
+/// Labels on choices or gathers anywhere below `nodes` (choice bodies included).
+fn nodes_contain_labels(nodes: &[Node]) -> bool {
+    nodes.iter().any(|node| match node {
+        Node::GatherLabel { .. } => true,
+        Node::Choice(choice) => choice.label.is_some() || nodes_contain_labels(&choice.body),
+        _ => false,
+    })
+}
+
 fn should_use_threaded_anon_gather(
     choices: &[Node],
     continuation: &[Node],
     scope: &EmitScope,
 ) -> bool {
+    // Label paths are worked out up front for the flat layout (collect_all_choice_labels):
+    // a labelled choice or gather moved into a threaded group would be addressed at a path
+    // that does not exist, and its read count would silently be 0.
+    if nodes_contain_labels(choices) || nodes_contain_labels(continuation) {
+        return false;
+    }
+
     let continuation = skip_leading_newlines(continuation);
 
     if !matches!(continuation.first(), Some(Node::GatherPoint)) {
